@@ -67,7 +67,12 @@ def generate(rng, prop, tier, index):
     npk = rng.choice([0, 1, 1, 2, 2, 3, 4, 5, 6])
     pkgs = []
     for i in range(npk):
-        pkgs.append({'name': 'p%d' % i, 'dir': rng.choice(DIRS),
+        name = 'p%d' % i
+        if rng.random() < 0.18:
+            # unusual but legal file names / require strings
+            name += rng.choice(['.v2', '-x', ' sp', "'q", '"dq', '\\b',
+                                '\\n1', '.lua', '%d', ']]x', 'a\\'])
+        pkgs.append({'name': name, 'dir': rng.choice(DIRS),
                      'final_newline': rng.random() < 0.75})
     # edges: main -> some; package -> some (chains, diamonds, cycles, self)
     ugl = {i: (rng.random() < 0.25) for i in range(npk)}
@@ -176,8 +181,9 @@ def _item_text(sc, frm, it, lua_path_mode):
         return 'function %s()\n %s\nend' % (it['name'], inner)
     if t == 'req':
         s = req_name(sc, frm, it['pkg'])
-        opt = ',{use_game_loop=true}' if it['ugl'] else ''
-        call = 'require("%s"%s)' % (s, opt)
+        opt = ',{use_game_loop=true}' if it['ugl'] else (
+            ',{use_game_loop=false}' if i % 7 == 3 else '')
+        call = 'require(%s%s)' % (lua_quote(s, i), opt)
         f = it['form']
         if f == 'stmt':
             return call
@@ -192,6 +198,44 @@ def _item_text(sc, frm, it, lua_path_mode):
     if t == 'bad':
         return it['text']
     raise core.HarnessError('item ' + t)
+
+
+def lua_quote(s, salt):
+    """A Lua string literal for s; the quoting style varies with salt."""
+    style = salt % 5
+    if style == 4 and ']]' not in s and '\n' not in s and \
+            not s.startswith('@'):
+        return '[[' + s + ']]'
+    if style == 3 and not s.startswith('@'):
+        return "'" + s.replace('\\', '\\\\').replace("'", "\\'") + "'"
+    return '"' + s.replace('\\', '\\\\').replace('"', '\\"') + '"'
+
+
+_ESC = {'n': '\n', 't': '\t', 'a': '\a', 'b': '\b', 'f': '\f', 'r': '\r',
+        'v': '\v', '\\': '\\', '"': '"', "'": "'"}
+
+
+def lua_unescape(s):
+    """Decode the escapes of a quoted Lua string literal body."""
+    out = []
+    i = 0
+    while i < len(s):
+        c = s[i]
+        if c == '\\' and i + 1 < len(s):
+            n = s[i + 1]
+            if n.isdigit():
+                j = i + 1
+                while j < len(s) and j < i + 4 and s[j].isdigit():
+                    j += 1
+                out.append(chr(int(s[i + 1:j]) & 0xff))
+                i = j
+                continue
+            out.append(_ESC.get(n, n))
+            i += 2
+            continue
+        out.append(c)
+        i += 1
+    return ''.join(out)
 
 
 def req_name(sc, frm, to):
@@ -256,8 +300,13 @@ def expected_block(sc, i, stripped):
 
 LOADER_RE = re.compile(r'function\s+require\s*\(')
 HEADER_RE = re.compile(
-    r'package\s*\.\s*_c\s*\[\s*(["\'])((?:[^"\'\\]|\\.)*)\1\s*\]\s*=\s*'
-    r'function\s*\(\s*\)')
+    r'package\s*\.\s*_c\s*\[\s*(?:"((?:[^"\\]|\\.)*)"|'
+    r"'((?:[^'\\]|\\.)*)')"
+    r'\s*\]\s*=\s*function\s*\(\s*\)')
+
+
+def _hname(m):
+    return lua_unescape(m.group(1) if m.group(1) is not None else m.group(2))
 
 
 def _needs_root_path(sc):
@@ -490,7 +539,7 @@ def check_output(sc, code, table, main_text):
                     'code differs from main.lua')
         return None
     heads = list(HEADER_RE.finditer(code))
-    got_names = [m.group(2) for m in heads]
+    got_names = [_hname(m) for m in heads]
     want_names = [t[0] for t in table]
     for n in want_names:
         c = got_names.count(n)
@@ -527,7 +576,7 @@ def check_output(sc, code, table, main_text):
     # each block: exactly the package's statements, minus stripped functions
     by_name = {t[0]: t for t in table}
     for k, m in enumerate(heads):
-        name = m.group(2)
+        name = _hname(m)
         end = heads[k + 1].start() if k + 1 < len(heads) else lpos
         block = code[m.end():end]
         block_ns = strip_ws_comments(block)
